@@ -15,7 +15,7 @@ from concurrent.futures import ThreadPoolExecutor
 
 VERIF = os.path.dirname(os.path.dirname(os.path.abspath(__file__)))
 REPO = os.environ.get("VERIF_REPO", "/repo")
-BUILD_ROOT = os.path.join(VERIF, ".build")
+BUILD_ROOT = os.environ.get("VERIF_BUILD_ROOT", os.path.join(VERIF, ".build"))
 GUARD = "-DMELUND_EZC3D_VERIF"
 
 COMMON = ["-std=c++11", "-g", "-fno-omit-frame-pointer", GUARD, "-Wno-deprecated-declarations", "-w"]
